@@ -587,11 +587,17 @@ def case_run(case):
         res["note"] = str(e)
         return res
     outer = ["", "", "~ this csvpath checks things ~ ", ""]
+    # one case in four has its mode given programmatically, on the instance, before the text is parsed: an outer comment
+    # without mode settings must leave that alone too
+    presets = None
+    if case["and"] and case["i"] % 4 == 3:
+        presets = r.choice([{"OR": True}, {"collect_when_not_matched": True}, {"OR": True, "collect_when_not_matched": True}])
+        res["counts"]["programmatic_modes"] = 1
     outs = []
     for v, o in zip(variants, outer):
         sep = r.choice(["", " ", "\n"])
         text = f"{o}{mode}${path}[{case['scan']}]{sep}{v}"
-        out, _p = real_run.run_single(text, "collect", policy=["collect"])
+        out, _p = real_run.run_single(text, "collect", policy=["collect"], presets=presets)
         if has_cycle(out.get("variables")):
             res["counts"]["cyclic"] = 1
             return res
